@@ -36,10 +36,10 @@ def design_matrix(f, n_parms, xs):
     return A
 
 
-def h_gls(cx, models, xs, ylay, priors=None, method=None, key_order=None, correlated=False, num_grad=False):
+def h_gls(cx, models, xs, ylay, priors=None, method=None, key_order=None, correlated=False, num_grad=False, minfail=False):
     """models/xs/ylay: dict key -> ... (combined fit) or single values under key ''."""
     import pyerrors as pe
-    rec = fitlib.install(cx, {})
+    rec = fitlib.install(cx, {}, minfail=minfail)
     keys = sorted(models)
     combined = not (keys == [''])
     yobs, yspec = {}, {}
@@ -99,9 +99,11 @@ def h_gls(cx, models, xs, ylay, priors=None, method=None, key_order=None, correl
         fx = {k: np.array(xs[k], dtype=float) for k in order}
         fy = {k: yobs[k] for k in reversed(order)}
         ff = {k: MODELS[models[k]][1] for k in order}
-        out = pe.least_squares(fx, fy, ff, **kw)
+        out = fitlib.guarded_fit(cx, rec, lambda: pe.least_squares(fx, fy, ff, **kw))
     else:
-        out = pe.least_squares(np.array(xs[''], dtype=float), yobs[''], MODELS[models['']][1], **kw)
+        out = fitlib.guarded_fit(cx, rec, lambda: pe.least_squares(np.array(xs[''], dtype=float), yobs[''], MODELS[models['']][1], **kw))
+    if out is None:
+        return
     res = out.fit_parameters
     cx.expect(len(res) == n_parms, 'number of parameters')
     for r in res:
@@ -290,6 +292,10 @@ def jobs(tier, seed):
     CV = ('cov', 'cv', 2)
     S = lambda m, x, y, **kw: add('gls', models={'': m}, xs={'': x}, ylay={'': y}, **kw)
     S('const', [1.0, 2.0], [E, E])
+    # minimiser contract including its failure mode (did not converge -> the fit must raise)
+    S('line', [1.0, 2.0, 4.0], [E, E, E], minfail=True)
+    S('line', [1.0, 2.0, 4.0], [E, E, F_], minfail=True, method='migrad')
+    S('line', [1.0, 2.0, 4.0], [E, E, F_], minfail=True, method='Powell', correlated=True)
     S('const', [1.0, 2.0, 3.0], [E, Ei, F_])
     S('line', [1.0, 2.0], [E, E])
     S('line', [1.0, 2.0, 4.0], [E, E, E])
